@@ -115,9 +115,8 @@ macro_rules! dbus_variant_sig_unmarshal {
                     return Ok(Self::$name(v));
                 }
                 )+
-                $crate::wire::validate_raw::validate_marshalled(
-                    ctx.byteorder, 0, ctx.remainder(), &sig
-                ).map_err(|e| e.1)?;
+                // validates the value and moves the context past it
+                $crate::wire::unmarshal::traits::Variant::unmarshal_with_sig(sig.clone(), ctx)?;
 
                 Ok(Self::Catchall(sig))
             }
